@@ -198,6 +198,19 @@ pub enum Reg {
 }
 
 impl Reg {
+    // We have 15 bits available to encode a stack offset
+    const MAGNITUDE_BITS: u32 = 14;
+    // Max:  16383
+    const I15_MAX: i16 = (1 << Self::MAGNITUDE_BITS) - 1;
+    // Min: -16384
+    const I15_MIN: i16 = -(1 << Self::MAGNITUDE_BITS);
+
+    /// whether a stack offset can be a register operand. Offsets outside this range can only be
+    /// reached with LoadOffset/StoreOffset, which have 16 bits
+    pub(crate) fn offset_is_encodable(n: i16) -> bool {
+        (Self::I15_MIN..=Self::I15_MAX).contains(&n)
+    }
+
     pub(crate) fn encode(&self) -> u16 {
         match self {
             Reg::Top => {
@@ -205,18 +218,12 @@ impl Reg {
                 0b1000_0000_0000_0000
             }
             Reg::Offset(n) => {
-                // We have 15 bits available to encode a stack offset
-                const MAGNITUDE_BITS: u32 = 14;
-
-                // Max:  16383
-                const I15_MAX: i16 = (1 << MAGNITUDE_BITS) - 1;
-                // Min: -16384
-                const I15_MIN: i16 = -(1 << MAGNITUDE_BITS);
-
-                if !(I15_MIN..=I15_MAX).contains(n) {
+                if !Self::offset_is_encodable(*n) {
                     panic!(
                         "Jump offset {} out of 15-bit range ({} to {})",
-                        n, I15_MIN, I15_MAX
+                        n,
+                        Self::I15_MIN,
+                        Self::I15_MAX
                     );
                 }
 
